@@ -56,6 +56,35 @@ func main() {
 		os.Exit(cmdVC(os.Args[2:]))
 	case "sweep":
 		os.Exit(cmdSweep(os.Args[2:]))
+	case "uncovered":
+		// repository functions (with a body, outside internal/mock) that have no contract
+		P, err := LoadProgram()
+		if err != nil {
+			fmt.Fprintln(os.Stderr, err)
+			os.Exit(2)
+		}
+		S, err := LoadSpecs(P, verifDir+"/contracts")
+		if err != nil {
+			fmt.Fprintln(os.Stderr, err)
+			os.Exit(2)
+		}
+		n, u := 0, 0
+		for _, fn := range P.RepoFuncs() {
+			k := FuncKey(fn)
+			if len(fn.Blocks) == 0 || strings.Contains(k, "internal/mock") || strings.HasSuffix(k, ".init") {
+				continue
+			}
+			n++
+			if S.Contracts[k] == nil {
+				u++
+				ni := 0
+				for _, b := range fn.Blocks {
+					ni += len(b.Instrs)
+				}
+				fmt.Printf("%5d %s\n", ni, k)
+			}
+		}
+		fmt.Printf("%d of %d repository functions have no contract\n", u, n)
 	default:
 		fmt.Fprintln(os.Stderr, "unknown command")
 		os.Exit(2)
